@@ -21,7 +21,7 @@ C0 = 299792458.0
 A_SPACE = {
     'length': [80.0, 0.05, 10.0, 150.0],
     'loss': ['0.2', '0.17', 'table_asc', 'table_desc', 'table_2pt'],
-    'lumped': ['none', 'one', 'two', 'two_close'],
+    'lumped': ['none', 'one', 'two', 'two_close', 'two_unsorted'],
     'att_in': [0.0, 1.5],
     'con_in': [0.0, 0.5],
     'con_out': [0.0, 0.3],
@@ -47,6 +47,8 @@ def lumped(kind, length):
         return [{'position': round(length * 0.25, 3), 'loss': 1.0}]
     if kind == 'two':
         return [{'position': round(length * 0.25, 3), 'loss': 1.0}, {'position': round(length * 0.5, 3), 'loss': 0.7}]
+    if kind == 'two_unsorted':      # listed in another order than their positions
+        return [{'position': round(length * 0.5, 3), 'loss': 0.7}, {'position': round(length * 0.25, 3), 'loss': 1.0}]
     return [{'position': round(length * 0.5, 3), 'loss': 0.4}, {'position': round(length * 0.5 + 0.001, 3), 'loss': 0.8}]
 
 
@@ -453,7 +455,7 @@ C_SPACE = {
     'method': ['perturbative2', 'perturbative1', 'perturbative4', 'numerical'],
     'res': [10e3, 1e3],
     'step': [1e3, 2e3, 100.0],
-    'lumped': ['none', 'one', 'two', 'on_grid', 'three'],
+    'lumped': ['none', 'one', 'two', 'on_grid', 'three', 'three_unsorted'],
     'pumps': ['none', 'cnt1', 'cnt2', 'co_cnt'],
     'length': [80.0, 50.0],
     'loss': ['0.2', 'table_asc'],
@@ -479,6 +481,8 @@ def lumped_c(kind, length):
         return [{'position': 17.3, 'loss': 1.0}, {'position': 41.7, 'loss': 0.7}]
     if kind == 'on_grid':
         return [{'position': 20.0, 'loss': 1.0}, {'position': 30.0, 'loss': 0.5}]
+    if kind == 'three_unsorted':
+        return [{'position': 40.0, 'loss': 0.5}, {'position': 10.0, 'loss': 0.3}, {'position': 25.5, 'loss': 0.8}]
     return [{'position': 10.0, 'loss': 0.5}, {'position': 25.5, 'loss': 0.8}, {'position': 40.0, 'loss': 0.5}]
 
 
